@@ -40,6 +40,7 @@ namespace c14
   struct DegreeTable
   {
     std::map<std::string, int> deg;       // "dunavant:7" -> 7
+    std::map<std::string, std::string> alias; // "simpson" -> "newton-cotes-closed:3"
     std::string error;
 
     void load()
@@ -57,6 +58,13 @@ namespace c14
         std::istringstream ls(line);
         std::string name, d;
         if(!std::getline(ls, name, '\t') || !std::getline(ls, d, '\t')) { error = path + ":" + std::to_string(ln) + ": malformed row"; return; }
+        if(name == "@alias")
+        {
+          std::string tgt;
+          if(!std::getline(ls, tgt, '\t')) { error = path + ":" + std::to_string(ln) + ": malformed alias row"; return; }
+          alias[d] = tgt;
+          continue;
+        }
         char* e = nullptr;
         long v = strtol(d.c_str(), &e, 10);
         if(e == d.c_str() || *e != 0 || v < 0 || v > 100) { error = path + ":" + std::to_string(ln) + ": bad degree"; return; }
@@ -511,7 +519,7 @@ namespace c14
         << ", worst monomial " << ex.worst_mono << " rel. error " << (double)ex.worst_rel; return o.str(); });
       c.check(ex.corner_ok, key + " :: tensor-degree", [&]{ return "per-direction monomial " + ex.corner_mono + " not integrated by a hypercube rule of nominal degree " + std::to_string(nominal); });
       c.outcome(std::string(kind) + " achieved-nominal=" + (ex.achieved_total >= nominal + 1 ? ">=+1" : ex.achieved_total == nominal ? "0" : "<0"));
-      if(ex.achieved_total > nominal) c.count("rules_exceeding_nominal");
+      if(ex.achieved_total > nominal && std::string(kind) == "base") c.count("base_rules_exceeding_nominal_within_tolerance");
       if(sh.dump) fprintf(stdout, "DUMP\t%s\t%s\t%s\tnominal=%d\tachieved=%d\tworst=%.3Lg\tpoints=%d\n", R::tag(), name.c_str(), std::string(rule.get_name()).c_str(), nominal, ex.achieved_total, ex.worst_rel, rule.get_num_points());
       c.nontrivial(verif::Hash().str(R::tag()).str(name).get());
     }
@@ -581,6 +589,13 @@ namespace c14
           c.desc([&]{ return std::string(R::tag()) + " alias '" + name + "' -> " + a.second; });
           int nominal = nominal_of(c, sh, a.second, true);
           if(nominal < 0) continue;
+          {
+            std::string al = a.first;
+            if(!model.sprefix.empty() && al.compare(0, model.sprefix.size(), model.sprefix) == 0) al = al.substr(model.sprefix.size());
+            auto ai = sh.table.alias.find(al);
+            c.check(ai != sh.table.alias.end() && ai->second == table_key(a.second), std::string(R::tag()) + " alias " + a.first + " :: alias-target",
+              [&]{ return "library maps alias to '" + a.second + "', spec says '" + (ai == sh.table.alias.end() ? std::string("<no such alias>") : ai->second) + "'"; });
+          }
           RuleT base;
           if(!c.check(DynamicFactory::create(base, String(a.second)), std::string(R::tag()) + " " + a.second + " :: create", "alias target not created")) continue;
           positive(c, sh, name, NameModel::compose(a.second, v == 1 ? 1 : -1), nominal, &base, v == 1 ? 1 : 0, "alias");
@@ -794,6 +809,12 @@ namespace c14
         auto add = [&](auto& sr) { for(auto& b : sr.bases) keys.insert(sr.table_key(b.name)); };
         add(s1); add(s2); add(s3); add(h1); add(h2); add(h3);
         for(auto& r : sh.table.deg) c.check(keys.count(r.first) > 0, "degree-table :: stale row " + r.first, "row names a rule that no shape offers");
+        {
+          std::set<std::string> offered;
+          auto adda = [&](auto& sr) { for(auto& a : sr.aliases) { std::string al = a.first; if(!sr.model.sprefix.empty() && al.compare(0, sr.model.sprefix.size(), sr.model.sprefix) == 0) al = al.substr(sr.model.sprefix.size()); offered.insert(al); } };
+          adda(s1); adda(s2); adda(s3); adda(h1); adda(h2); adda(h3);
+          for(auto& a : sh.table.alias) c.check(offered.count(a.first) > 0, "degree-table :: alias not offered " + a.first, "spec lists an alias that no shape offers");
+        }
         c.count("degree_table_rows", sh.table.deg.size());
         c.count("distinct_rule_names", keys.size());
       }
